@@ -184,6 +184,11 @@ pub struct Inner {
     pub read_faults: Vec<ReadFaultRec>,
     /// interleaving control (C13): permits per task tag; `None` = ungated
     pub gate: Option<[u64; 2]>,
+    /// a runtime-friendly stall (c12x: the persistence actor blocked inside a store call while the
+    /// bridge keeps filling its mailbox): every call first takes a permit of this semaphore
+    pub hold: Option<Arc<tokio::sync::Semaphore>>,
+    /// every modelled call returns an error without effect while this is set (the call is counted)
+    pub fail_all: bool,
 }
 
 /// harness-side object store: in-memory, counting, fault-injecting, snapshotting, gateable
@@ -238,6 +243,8 @@ impl FaultStore {
                 previous: BTreeMap::new(),
                 read_faults: Vec::new(),
                 gate: None,
+                hold: None,
+                fail_all: false,
             })),
             tag: 0,
         }
@@ -274,7 +281,19 @@ impl FaultStore {
             g.snapshots.push(snap);
             g.log.push(format!("{}:{}", idx, what));
         }
+        if g.fail_all {
+            return Some(Fault::Fail);
+        }
         g.faults.get(&idx).cloned()
+    }
+    /// wait for a permit when the store is held
+    async fn held(&self) {
+        let h = self.inner.lock().unwrap().hold.clone();
+        if let Some(h) = h {
+            if let Ok(p) = h.acquire().await {
+                p.forget();
+            }
+        }
     }
 }
 
@@ -302,6 +321,7 @@ impl ObjectStore for FaultStore {
     fn put<'a>(&'a self, key: &'a str, data: &'a [u8]) -> Pin<Box<dyn Future<Output = IoResult<()>> + Send + 'a>> {
         Box::pin(async move {
             Gate { inner: self.inner.clone(), tag: self.tag }.await;
+            self.held().await;
             match self.begin(format!("put {}", key), Some((key, data))).filter(|f| !f.is_read()) {
                 None => {
                     let mut g = self.inner.lock().unwrap();
@@ -321,6 +341,7 @@ impl ObjectStore for FaultStore {
     fn get<'a>(&'a self, key: &'a str) -> Pin<Box<dyn Future<Output = IoResult<Vec<u8>>> + Send + 'a>> {
         Box::pin(async move {
             Gate { inner: self.inner.clone(), tag: self.tag }.await;
+            self.held().await;
             match self.begin(format!("get {}", key), None) {
                 None => self
                     .inner
@@ -353,6 +374,7 @@ impl ObjectStore for FaultStore {
     fn exists<'a>(&'a self, key: &'a str) -> Pin<Box<dyn Future<Output = IoResult<bool>> + Send + 'a>> {
         Box::pin(async move {
             Gate { inner: self.inner.clone(), tag: self.tag }.await;
+            self.held().await;
             if self.probe(format!("exists {}", key)) {
                 return Err(injected());
             }
@@ -362,6 +384,7 @@ impl ObjectStore for FaultStore {
     fn delete<'a>(&'a self, key: &'a str) -> Pin<Box<dyn Future<Output = IoResult<()>> + Send + 'a>> {
         Box::pin(async move {
             Gate { inner: self.inner.clone(), tag: self.tag }.await;
+            self.held().await;
             match self.begin(format!("delete {}", key), None).filter(|f| !f.is_read()) {
                 None => {
                     self.inner.lock().unwrap().objects.remove(key);
@@ -374,6 +397,7 @@ impl ObjectStore for FaultStore {
     fn list<'a>(&'a self, prefix: &'a str, _t: Option<&'a str>) -> Pin<Box<dyn Future<Output = IoResult<ListResult>> + Send + 'a>> {
         Box::pin(async move {
             Gate { inner: self.inner.clone(), tag: self.tag }.await;
+            self.held().await;
             if self.probe(format!("list {}", prefix)) {
                 return Err(injected());
             }
@@ -390,6 +414,7 @@ impl ObjectStore for FaultStore {
     fn rename<'a>(&'a self, from: &'a str, to: &'a str) -> Pin<Box<dyn Future<Output = IoResult<()>> + Send + 'a>> {
         Box::pin(async move {
             Gate { inner: self.inner.clone(), tag: self.tag }.await;
+            self.held().await;
             match self.begin(format!("rename {} {}", from, to), None).filter(|f| !f.is_read()) {
                 None => {
                     let mut g = self.inner.lock().unwrap();
@@ -410,6 +435,7 @@ impl ObjectStore for FaultStore {
     fn head<'a>(&'a self, key: &'a str) -> Pin<Box<dyn Future<Output = IoResult<ObjectMeta>> + Send + 'a>> {
         Box::pin(async move {
             Gate { inner: self.inner.clone(), tag: self.tag }.await;
+            self.held().await;
             if self.probe(format!("head {}", key)) {
                 return Err(injected());
             }
@@ -1235,6 +1261,13 @@ pub fn run(a: &Args) {
             let mut r = rng.fork();
             case(&mut out, &mut r, None).await;
         }
+        // the layer above the writer: step functions of StreamingPersistence on a virtual clock, WriteBuffer
+        crate::c12x::run_all(&mut out, &mut rng, a.n / 10 + 20, false).await;
+    });
+    // the real worker pipeline (sink, bridge, bounded mailbox, actor) under tokio's paused clock
+    let rt2 = tokio::runtime::Builder::new_current_thread().enable_all().start_paused(true).build().unwrap();
+    rt2.block_on(async {
+        crate::c12x::run_all(&mut out, &mut rng, a.n / 20 + 10, true).await;
     });
     out.finish("case = one workload of 3..11 push/flush/compact operations on a real StreamingPersistence + Compactor over a counting, fault-injecting, snapshotting ObjectStore (0..2 faults {error without effect, error after a torn object} at generated call indices), followed by real recovery on the store image at EVERY call boundary (and inside every put); distinct by the op text incl. the fault placement; non-trivial iff some flush returned Ok and the run has a fault, an error or a compaction");
 }
